@@ -88,6 +88,18 @@ def region_from_dict(data):
             "c": field("x2"), "d": field("y2")}
 
 
+def _payload_exact(payload, regions):
+    """Do the numbers of a payload equal the registry's, attribute by attribute, exactly?
+    (Length / order / missing attributes are judged on the projected lists.)"""
+    if len(payload) != len(regions):
+        return True
+    for data, region in zip(payload, regions):
+        for key in ("x1", "y1", "x2", "y2", "cx", "cy", "r"):
+            if hasattr(region, key) and key in data and data[key] != getattr(region, key):
+                return False
+    return True
+
+
 def _store_records(store, g90e):
     """Contract form and model form of the stored settings."""
     cf = {"g90e": bool(g90e), "enter": list(store["enter"]), "exit": list(store["exit"]),
@@ -114,8 +126,13 @@ def run_plugin_history(hist, trace_id, keep_state=True):
         state = alpha_state(plugin.state)
         event["same"] = (before == state)
         event["rl"] = [alpha_region(r) for r in plugin.state.excludedRegions]
+        raw_notes = rig.notifications()
         event["notes"] = [[region_from_dict(r) for r in note.get("excluded_regions", [])]
-                          for note in rig.notifications()]
+                          for note in raw_notes]
+        # the native-unit projection above rounds to 1e-4 mm; "equals the current list" is also
+        # checked on the raw numbers of the latest payload
+        event["nx"] = (not raw_notes) or _payload_exact(
+            raw_notes[-1].get("excluded_regions", []), plugin.state.excludedRegions)
         event["pst"] = {"active": bool(plugin.isActivePrintJob),
                         "clearAfter": bool(plugin.clearRegionsAfterPrintFinishes),
                         "mayShrink": bool(plugin.mayShrinkRegionsWhilePrinting)}
@@ -220,6 +237,8 @@ def run_plugin_history(hist, trace_id, keep_state=True):
             event = {"ev": "get"}
             payload = rig.api_get()
             event["got"] = [region_from_dict(r) for r in payload.get("excluded_regions", [])]
+            event["gx"] = _payload_exact(payload.get("excluded_regions", []),
+                                         plugin.state.excludedRegions)
         else:
             raise ValueError("unknown step %r" % (step,))
         events.append(common_fields(event, before))
